@@ -257,6 +257,11 @@ class Run:
                 ret = proc.fail(exc, None)
             elif kind == 'cancel_future':
                 ret = proc.future().cancel()
+            elif kind == 'cancel_ret':
+                # the requester withdraws: cancels the future that its most recent kill() / pause() (arg) handed back
+                target = next((n for n, f in reversed(self.futs) if self.acts[n]['kind'] == arg), None)
+                entry['target'] = target
+                ret = dict(self.futs)[target].cancel() if target is not None else None
             elif kind in ('soon_ok', 'soon_raise'):
                 proc.call_soon(programs._make_cb(proc, 'raise' if kind == 'soon_raise' else 'ok', arg))
                 ret = None
